@@ -99,6 +99,9 @@ EINSUMS = [
     ("iij->j", [(2, 2, 3)]), ("ijj->ij", [(2, 3, 3)]), ("i->", [(3,)]), ("...->...", [(2, 3)]), ("...i->...", [(2, 3)]),
     ("ij,ij->", [(2, 3), (2, 3)]), ("ab,cb->ac", [(2, 3), (2, 3)]), ("...a,a...->...", [(2, 3), (3, 2)]),
     ("ij,jk->ik", [(1, 3), (3, 2)]), ("bi,bi->b", [(2, 3), (1, 3)]), ("i,->i", [(3,), ()]),
+    ("i...,i...->...", [(2, 3, 2), (2, 2)]), ("i...,i...->i...", [(2, 3, 2), (2, 1)]), ("...i,...i->...", [(2, 3, 2), (3, 2)]),
+    ("i...j,i...j->i...j", [(2, 3, 2), (2, 2)]), ("i...j,jk->i...k", [(2, 3, 2), (2, 3)]), ("...,...", [(2, 3), (3,)]),
+    ("...,...->...", [(2, 1), (2, 2, 3)]), ("i...->...", [(2, 3, 2)]), ("...ii->...", [(2, 3, 3)]), ("i...,...i->...", [(2, 3, 2), (2, 2)]),
 ]
 
 
@@ -126,10 +129,24 @@ EINSUM_LISTS = [
     ([[Ellipsis, 0, 1], [Ellipsis, 1, 2]], [Ellipsis, 0, 2], [(2, 3), (2, 3, 2)]),
     ([[0, Ellipsis], [0, Ellipsis]], [Ellipsis], [(2, 3), (2, 3)]),
     ([[0, 1], [0, 1]], [], [(2, 3), (2, 3)]),
+    # operands whose "..." blocks have different ranks (NumPy right-aligns them), Ellipsis first / last / in the middle
+    ([[0, Ellipsis], [0, Ellipsis]], [Ellipsis], [(2, 3, 2), (2, 2)]),
+    ([[0, Ellipsis], [0, Ellipsis]], [0, Ellipsis], [(2, 3, 2), (2, 2)]),
+    ([[0, Ellipsis], [0, Ellipsis]], [0, Ellipsis], [(2, 3, 2), (2, 1)]),
+    ([[Ellipsis, 0], [Ellipsis, 0]], [Ellipsis], [(2, 3, 2), (3, 2)]),
+    ([[Ellipsis, 0], [Ellipsis, 0]], [Ellipsis, 0], [(2, 3, 2), (2,)]),
+    ([[0, Ellipsis, 1], [0, Ellipsis, 1]], [0, Ellipsis, 1], [(2, 3, 2), (2, 2)]),
+    ([[0, Ellipsis, 1], [0, Ellipsis, 1]], [Ellipsis], [(2, 3, 2), (2, 1, 2)]),
+    ([[0, Ellipsis, 1], [1, 2]], [0, Ellipsis, 2], [(2, 3, 2), (2, 3)]),
+    ([[0, Ellipsis], [Ellipsis, 0]], [Ellipsis], [(2, 3, 2), (2, 2)]),
+    ([[Ellipsis], [Ellipsis]], [Ellipsis], [(2, 3), (3,)]),
+    ([[Ellipsis], [Ellipsis]], [Ellipsis], [(2, 1), (2, 2, 3)]),
+    ([[0, Ellipsis]], [Ellipsis], [(2, 3, 2)]),
+    ([[Ellipsis, 0, 0]], [Ellipsis], [(2, 3, 3)]),
 ]
 
 
-@template("c:einsum_list", "contract")
+@template("c:einsum_list", "contract", weight=2)
 def _t_einsum_list(c):
     i = c.int(0, len(EINSUM_LISTS) - 1)
     subs, out, shapes = EINSUM_LISTS[i]
